@@ -894,4 +894,52 @@ theorem migrate_uninterrupted_any {cfg : Cfg} (hc : cfg.overwriteMigrated = fals
         cases this
 
 
+/-- Two blocks agree except possibly for the combined entry. -/
+def SameButBlob (x y : Blk) : Prop := x.hdr = y.hdr ∧ x.otx = y.otx ∧ x.orc = y.orc
+
+theorem nonEmptyMigrated_agree {orig : Orig} {h : Nat} {a b : Db}
+    (ha : NonEmptyMigrated orig h a) (hb : NonEmptyMigrated orig h b) (k : Nat) (hk : k ≤ h) :
+    (orig k ≠ ([], []) → a.blk k = b.blk k) ∧
+    (orig k = ([], []) → SameButBlob (a.blk k) (b.blk k) ∧
+      ((a.blk k).blob = none ∨ (a.blk k).blob = some ([], [])) ∧
+      ((b.blk k).blob = none ∨ (b.blk k).blob = some ([], []))) := by
+  refine ⟨fun hne => ?_, fun he => ?_⟩
+  · rw [((ha.2 k hk).1 hne).eq, ((hb.2 k hk).1 hne).eq]
+  · have shape : ∀ (x : Blk), (Migrated (orig k) x ∨ Unmigrated (orig k) x) →
+        x.hdr = some 0 ∧ x.otx = [] ∧ x.orc = [] ∧ (x.blob = none ∨ x.blob = some ([], [])) := by
+      intro x hx
+      rcases hx with m | u
+      · refine ⟨by rw [m.1, he]; rfl, m.2.1, m.2.2.1, .inr (by rw [m.2.2.2, he])⟩
+      · refine ⟨by rw [u.1, he]; rfl, by rw [u.2.1, he], by rw [u.2.2.1, he], ?_⟩
+        rcases u.2.2.2 with u0 | u0
+        · exact .inl u0
+        · exact .inr (by rw [u0, he])
+    obtain ⟨a1, a2, a3, a4⟩ := shape _ ((ha.2 k hk).2 he)
+    obtain ⟨b1, b2, b3, b4⟩ := shape _ ((hb.2 k hk).2 he)
+    exact ⟨⟨by rw [a1, b1], by rw [a2, b2], by rw [a3, b3]⟩, a4, b4⟩
+
+/-- Current code: any interruption pattern followed by an undisturbed rerun reaches the database of
+an undisturbed run EXCEPT for the combined entry of empty blocks, which is present (empty) or absent
+depending on the history. -/
+theorem resume_data_partial {cfg : Cfg} (hc : cfg.overwriteMigrated = false)
+    {orig : Orig} {h : Nat} {db : Db} (hw : WFOrig orig) (hi : Inv orig h db) (att : List (List Step)) :
+    (migrate cfg (attempts cfg db att) []).2 = .done ∧ (migrate cfg db []).2 = .done ∧
+    (∀ k, h < k → (migrate cfg (attempts cfg db att) []).1.blk k = (migrate cfg db []).1.blk k) ∧
+    ∀ k, k ≤ h →
+      (orig k ≠ ([], []) → (migrate cfg (attempts cfg db att) []).1.blk k = (migrate cfg db []).1.blk k) ∧
+      (orig k = ([], []) →
+        SameButBlob ((migrate cfg (attempts cfg db att) []).1.blk k) ((migrate cfg db []).1.blk k) ∧
+        (((migrate cfg (attempts cfg db att) []).1.blk k).blob = none ∨
+          ((migrate cfg (attempts cfg db att) []).1.blk k).blob = some ([], [])) ∧
+        (((migrate cfg db []).1.blk k).blob = none ∨ ((migrate cfg db []).1.blk k).blob = some ([], []))) := by
+  have ha := attempts_inv hc hw att db hi
+  have d1 := migrate_uninterrupted_any hc hw ha.1
+  have d0 := migrate_uninterrupted_any hc hw hi
+  refine ⟨d1, d0, ?_, ?_⟩
+  · intro k hk
+    rw [(migrate_inv hc hw ha.1 []).2 k hk, ha.2 k hk, (migrate_inv hc hw hi []).2 k hk]
+  · intro k hk
+    exact nonEmptyMigrated_agree (migrate_done_any hc hw ha.1 [] d1) (migrate_done_any hc hw hi [] d0) k hk
+
+
 end Juno.C18.BlockTx
